@@ -213,11 +213,17 @@ def tlaps_proof(module, tag):
     shutil.rmtree(cache, ignore_errors=True)
     os.makedirs(cache, exist_ok=True)
     t0 = time.time()
-    try:
-        rc, out = run(["tlapm", "--threads", "6", "--cleanfp", "--cache-dir", cache, module + ".tla"], cwd=d, timeout=1500)
-    except subprocess.TimeoutExpired:
-        raise ToolError("tlapm timed out on %s" % module)
-    m = re.search(r"All (\d+) obligations? proved", out)
+    # a loaded machine makes the SMT back end time out on obligations it otherwise discharges in a second:
+    # retry with all prover time limits stretched before calling it a failure
+    for stretch in ("1", "4", "12"):
+        try:
+            rc, out = run(["tlapm", "--threads", "6", "--stretch", stretch, "--cleanfp", "--cache-dir", cache, module + ".tla"],
+                          cwd=d, timeout=2400)
+        except subprocess.TimeoutExpired:
+            raise ToolError("tlapm timed out on %s" % module)
+        m = re.search(r"All (\d+) obligations? proved", out)
+        if rc == 0 and m:
+            break
     shutil.rmtree(cache, ignore_errors=True)
     if rc != 0 or not m:
         raise ToolError("tlapm does not prove %s:\n%s" % (module, out[-2000:]))
